@@ -1,3 +1,5 @@
 import XProofs.Properties.C05
 #print axioms Properties.C05.C05_deps_exact
 #print axioms Properties.C05.C05_valid_covers
+#print axioms Properties.C05.C05_value_depends_only_on_reported
+#print axioms Properties.C05.C05_changed_location_reported
